@@ -526,3 +526,20 @@ LEVEL_NOTE = ("Trusted: Coq kernel+VM, the hand models (tied by correspondence e
               "exactly for every digit string (CPython's accum() is translation invariant in its integer accumulator; no exact tie of the left-over occurs), hence no real-number "
               "axioms: closed under the global context. dur_frac_1digit_partial (the former finite check over seven integer parts) is kept unchanged.")
 TECHNIQUE = "Coq proof over hand models (list-of-code-point strings, SpecFloat) + differential correspondence + exact rational oracle"
+
+
+# the post-match code of the pure-Python duration parser is translated from /repo on every run and the hand model is PROVED equal to it
+TRUSTED = list(TRUSTED) + [
+    "tools/vlib/pyfloat2gallina.py + tools/vlib/gens/g53_dur_parse_py.py (Python ast -> Gallina for _parse_iso8601_duration after the regex match; generic part: CPython's "
+    "int/float typing and conversion points, evaluation order, every raising operation a bind, the variables assigned in an `if` threaded through the result monad, int-or-float "
+    "accumulators as `num`; STRING layer read by fixed rules listed in the generator's docstring: a token group = the tok record (digits, optional fraction digits, start), "
+    "m.group / m.start / .replace(',', '.').replace(<designator>, '') / '.' in x / x.split('.') / int(x) / int(f\"{x[:6]:0<6}\") / cast; fails closed on anything else) and "
+    "coq/Model/DurParsePrims.v (int / positive constant and int -> float in the result monad): they replace the former trust in the hand transcription `py_args` of "
+    "Model/DurParse.v, now PROVED equal to the translation (model_is_code_parse_iso8601_duration_partial, closed under the global context) for every match record without a week FRACTION",
+]
+LEVEL_NOTE = LEVEL_NOTE + (" Model = code (pure-Python parser): coq/Gen/DurParsePy.v is translated from src/pendulum/parsing/iso8601.py::_parse_iso8601_duration on every run and "
+                           "Proofs/DurParsePyFacts.v proves it equal to py_args + duration_native (py_native after the match) for every match record whose weeks group has no fraction, so a "
+                           "semantic edit of that code (the /10, a carry constant, a designator branch, the [:6] padding, an order check, the fractional flag) breaks a proof or fails closed "
+                           "(self-tested by mutation) rather than only a source pin. Remaining gap: a FRACTIONAL week - the translation uses CPython's float // 1, % 1, int() where the hand model "
+                           "writes trunc and x - trunc x; equal on five witnesses by kernel computation, in general only tied by correspondence. Not translated: the compiled parser's glue "
+                           "(parser.py -> pendulum.duration), the interval glue py_parts, Duration.__new__ with float arguments (duration_native is the hand model of delta_new/accum).")
